@@ -286,7 +286,13 @@ pub fn c05(tier: &str) -> Report {
     rep.set("executions", json!(execs));
     rep.set("worst_convergence_in_announce_to_down_periods_x100", json!(worst));
     rep.set("cells_ending_in_the_known_stuck_state(sample)", json!(stuck_cells));
-    rep.sample(json!({"cell": cells[cells.len() / 2].0.label()}));
+    {
+        let c = &cells[cells.len() / 2].0;
+        let tr = trace_one(40, || {
+            run_c05(c, &BTreeMap::new());
+        });
+        rep.sample(json!({"cell": c.label(), "schedule": "default", "events_after_the_heal": tr}));
+    }
     rep.rule = "fault cells = cluster size x every split shape (up to symmetry) x formation phase offset {0,1,17} x partition start at event indices of the window x heal instant (mutual Down + {0, 1, 7 probe periods, 130, 255, 380 ticks}) plus the asymmetric case (a single live member falsely declared Down); on top of selected cells every schedule with <= 1 deviation in the first announce-to-down period after the heal. distinct = fault cells".into();
     rep.assume("renewable identities, notify_down_members, periodic_announce_to_down_members(500 ticks, 2 members); convergence bound asserted: 8 announce-to-down periods after the heal");
     rep
